@@ -1,5 +1,5 @@
 (* Properties/C06.v — streams are flattened in order: sources, multi-document files and !include agree. *)
-From AY Require Import Model.Stream Proofs.StreamLemmas Proofs.FlagsLemmas.
+From AY Require Import Model.Stream Proofs.StreamLemmas Proofs.FlagsLemmas Model.PathRef Proofs.PathRefLemmas.
 
 (* A build input is a list of segments: single documents (a source holding one document, or one document of a
    multi-document source) and groups of documents delivered by ONE top-level include (a stream node, with whatever
@@ -65,3 +65,23 @@ Example C06_example :
   (exists r, build_stream [] [d1; d2; d3] = Ok r /\
              erase r = PD [(KS 1, PL [PS (SInt 3)]); (KS 2, PS (SInt 4))]).
 Proof. split; [reflexivity|]. eexists. split; vm_compute; reflexivity. Qed.
+
+(* ---- !path with a file-relative reference point (parent(n)) ----
+   For EVERY spelling of the source file name (absolute, relative, with '..' components), every working directory, every n and
+   every components: the location the node denotes depends only on WHERE its file is - two spellings of the same file give
+   the same location - and it is "n+1 levels above the file, then the components" (clamped at the root). *)
+Theorem C06_path_spelling_irrelevant : forall cwd1 s1 cwd2 s2 n args,
+  locate cwd1 s1 = locate cwd2 s2 -> locate cwd1 (parent_ref s1 n args) = locate cwd2 (parent_ref s2 n args).
+Proof. exact path_spelling_irrelevant. Qed.
+Print Assumptions C06_path_spelling_irrelevant.
+
+Theorem C06_path_parent : forall cwd src n args,
+  locate cwd (parent_ref src n args) = rev (fold_left (push true) (repeat Up (S n) ++ args) (rev (locate cwd src))).
+Proof. exact locate_parent_ref. Qed.
+Print Assumptions C06_path_parent.
+
+(* the shape of repaired defect 048268d: ../conf/paths.yaml seen from /proj/work, parent(2), [datasets]  ->  /datasets *)
+Example C06_path_example :
+  locate [Nm 1; Nm 2] (parent_ref (mkP false [Up; Nm 3; Nm 4]) 2 [Nm 5]) = [Nm 5] /\
+  locate [Nm 1; Nm 2] (parent_ref (mkP false [Up; Nm 3; Nm 4]) 2 [Nm 5]) = locate [Nm 9] (parent_ref (mkP true [Nm 1; Nm 3; Nm 4]) 2 [Nm 5]).
+Proof. split; vm_compute; reflexivity. Qed.
